@@ -221,3 +221,44 @@ func init() {
 		return first
 	})
 }
+
+// Frameshifts / Stops (the statistics `goalign phasent` logs): `frameshifts <alpha> <rows> <flag>` answers
+// `S-E,S-E,…` (one entry per row, the first is the zero value); `stops <alpha> <rows> <flag> <code>` answers
+// `ok p,p,…` / `err`.  Each call is made twice on fresh alignments: both answers must agree.
+func init() {
+	register("frameshifts", func(a []string) string {
+		one := func() string {
+			al := alFrom(a[1], atoi(a[0]))
+			fs := al.Frameshifts(a[2] == "1")
+			parts := make([]string, len(fs))
+			for i, f := range fs {
+				parts[i] = fmt.Sprintf("%d-%d", f.Start, f.End)
+			}
+			return strJoin(parts)
+		}
+		r1, r2 := one(), one()
+		if r1 != r2 {
+			return "NONDETERMINISTIC " + r1
+		}
+		return r1
+	})
+	register("stops", func(a []string) string {
+		one := func() string {
+			al := alFrom(a[1], atoi(a[0]))
+			st, err := al.Stops(a[2] == "1", atoi(a[3]))
+			if err != nil {
+				return "err"
+			}
+			parts := make([]string, len(st))
+			for i, p := range st {
+				parts[i] = itoa(p)
+			}
+			return "ok " + strJoin(parts)
+		}
+		r1, r2 := one(), one()
+		if r1 != r2 {
+			return "NONDETERMINISTIC " + r1
+		}
+		return r1
+	})
+}
